@@ -164,7 +164,10 @@ fn run01(ctx: &Ctx) {
         (v, if want_case { case.to_json() } else { Value::Null })
     });
     // every opcode x every register pair x boundary operands, one instruction per test
-    super::matrix::run(ctx, &runner, ctx.tier.pick(4, 16) as usize, 1, &|r, c| check01(r, c, None));
+    if super::matrix::run(ctx, &runner, ctx.tier.pick(4, 16) as usize, 1, &|r, c| check01(r, c, None)) {
+        return;
+    }
+    super::matrix::run_pairs(ctx, &runner, ctx.tier.pick(2, 12) as usize, true, &|r, c| check01(r, c, None));
 }
 
 fn replay01(_ctx: &Ctx, _kind: &str, case: &Value) -> Verdict {
@@ -253,7 +256,10 @@ fn run_diff(ctx: &Ctx, engine: Engine, local_calls: bool, quick: u64, thorough: 
         let v = check_diff(&mut runner.borrow_mut(), &mut case, engine, if frozen { None } else { Some(&mut st) });
         (v, if want_case { case.to_json() } else { Value::Null })
     });
-    super::matrix::run(ctx, &runner, ctx.tier.pick(4, 16) as usize, 1, &|r, c| check_diff(r, c, engine, None));
+    if super::matrix::run(ctx, &runner, ctx.tier.pick(4, 16) as usize, 1, &|r, c| check_diff(r, c, engine, None)) {
+        return;
+    }
+    super::matrix::run_pairs(ctx, &runner, ctx.tier.pick(2, 12) as usize, local_calls, &|r, c| check_diff(r, c, engine, None));
 }
 
 fn run03(ctx: &Ctx) {
